@@ -158,6 +158,27 @@ func TestVerifC12(t *testing.T) {
 			c = g.Copy()
 			c.SecretSig = g.SecretSig[:63]
 			join("removal", c12mut{"signature truncated", c, "(KeyOk 5)", 7, "SigJunk"}, false)
+			// a secret of another LENGTH whose first 32 bytes (or zero-padded bytes) are the signed ones:
+			// the envelopes are sealed with a 32-byte array made from it, the signature covers the field
+			c = g.Copy()
+			c.Secret = append(append([]byte(nil), g.Secret...), 0)
+			join("removal", c12mut{"secret extended by a zero byte", c, "(KeyOk 5)", 8, "(SigBy 5 7)"}, false)
+			c = g.Copy()
+			c.Secret = append(append([]byte(nil), g.Secret...), 0xa5, 0x5a, 1)
+			join("removal", c12mut{"secret extended by three bytes", c, "(KeyOk 5)", 8, "(SigBy 5 7)"}, false)
+			c = g.Copy()
+			c.Secret = append([]byte(nil), g.Secret[:len(g.Secret)-1]...)
+			join("removal", c12mut{"secret cut by its last byte", c, "(KeyOk 5)", 8, "(SigBy 5 7)"}, false)
+			for tries := 0; tries < 4000; tries++ {
+				gz, _, err := NewGroupMultiMember()
+				if err != nil || gz.Secret[len(gz.Secret)-1] != 0 {
+					continue
+				}
+				c = gz.Copy()
+				c.Secret = append([]byte(nil), gz.Secret[:len(gz.Secret)-1]...)
+				join("removal", c12mut{"secret ending in a zero byte, cut by that byte", c, "(KeyOk 5)", 8, "(SigBy 5 7)"}, false)
+				break
+			}
 			// a secret signed by another group's key
 			o, _, _ := NewGroupMultiMember()
 			c = g.Copy()
